@@ -3,7 +3,7 @@ package props
 import "verif/internal/drv"
 
 func init() {
-	goLib("C16", 16, drv.ChildOpts{WallSec: 3000, CPUSec: 3000, Env: []string{"GOGC=400"}, CrashIsViol: true, CrashSigPfx: "crash:"}, drv.Spec{
+	goLib("C16", 16, drv.ChildOpts{WallSec: 7200, CPUSec: 6000, Env: []string{"GOGC=400"}, CrashIsViol: true, CrashSigPfx: "crash:"}, drv.Spec{
 		Level: "exploration",
 		Rule: "valid streams = payload class (empty, 1 byte, text, runs, random, repeat at ~32 KiB distance, mixed) x encoder (compress/flate and compress/zlib at levels -2..9 with random Write/Flush patterns and preset dictionaries; hand-assembled stored/fixed/dynamic blocks with random valid trees, empty blocks in the middle and at the end, odd bit alignments) x format (raw DEFLATE, zlib); " +
 			"limits = every limit from SmallestValidMaxEncodedLen to len(stream)+2 for streams <= 2048 bytes (exhaustive per stream: counters streams_exhaustive_limits / limits_in_exhaustive_sweeps), block-boundary-, symbol-boundary-, 65540- and end-targeted plus random limits for longer ones; every limit is cut once with a nil writer and once with a writer; " +
